@@ -12,7 +12,11 @@ array formulas entered over target ranges.  The member-cell model
 eval_func / INDEX / _evaluate) is tied to ExcelCompiler on the same workbooks:
 the formula's result array and the target shape -> the value of EVERY cell of the
 target (stream e2e:cells), and the numbers and range written into every member
-cell (stream e2e:sheet)."""
+cell (stream e2e:sheet).  Lifted functions: the catalogue of what the library lifts
+(excel_helper(cse_params=…) functions and the ones that wrap themselves inside an
+array-formula context: IFERROR, IFNA, IFS) is read from the loaded modules; streams
+lifted:* (library level, arrays at every subset of the lifted positions) and
+e2e-lifted:* (real CSE formulas, range and member cells) carry the pointwise oracle."""
 import itertools
 
 from harness.common import (canon, dec_res, enc_val, ensure_impl_on_path, known_predicate,
@@ -214,7 +218,11 @@ def run(ctx):
         "operators, every result shape x every target shape h x w <= 4x4 for fit_to_range, every compatible "
         "operand pair x every target end to end in a workbook; element values sampled by the PRNG from "
         "numbers (ints, dyadic floats), text, logicals, blank and the error codes; lifted functions MOD, "
-        "ROUND, LEFT, IF and a probe function through apply_meta with array/scalar argument mixes; every cell "
+        "ROUND, LEFT, IF and a probe function through apply_meta with array/scalar argument mixes; every function "
+        "the library lifts (catalogue by introspection, incl. IFERROR/IFNA/IFS inside an array-formula context) "
+        "with equally shaped arrays at every subset of its lifted argument positions, differing elements and "
+        "errors away from the top left, at library level and as real CSE formulas over the arguments' shape, "
+        "two other targets and one cell; every cell "
         "of every end-to-end target against the member-cell model; ranges around two adjacent array formulas "
         "(same text, extended text, other text; horizontal or vertical; reference sizes up to 3x3); "
         "distinct = distinct (call, shapes, values)")
